@@ -99,6 +99,8 @@ def _case(draw):
         elif spec[0] == 'ceval':
             referenced.add(spec[2][0])
     weak_base = draw(st.integers(0, 3)) == 0       # the first document is '--- !weak': later stages decide by priority which nodes still exist
+    if weak_base and any(spec[0] == 'pcall' for _, spec in top):
+        weak_base = False       # (a !force-pinned argument below a !weak root: nested priority tags of different value are not ranked by any statement)
     acted = set()
     for _ in range(draw(st.sampled_from([0, 0, 1, 1, 2, 3] if weak_base else [0, 0, 1, 1, 2]))):
         acts = []
@@ -131,6 +133,9 @@ def _case(draw):
                 a = 'list2'
             acts.append([k, a])
         stages.append(acts)
+    if draw(st.integers(0, 9)) == 0:
+        # a whole document that resets everything written so far ('--- !del {}'): no producer of the first document exists any more
+        stages.insert(draw(st.integers(0, len(stages))), [['*', 'reset']])
     for ck in ('box', 'lst'):
         if weak_base and ck in keys and ck not in referenced and draw(st.booleans()):
             # the history the priority of a container is decided by: weak, then merged with something regular, then a weak replacement
@@ -245,6 +250,8 @@ def alias_places(case):
 
 
 def stage_doc(acts):
+    if acts == [['*', 'reset']]:
+        return tdoc.mp([], flow=True, **{'del': True})
     items = []
     for k, a in acts:
         if a == 'scalar':
@@ -273,6 +280,10 @@ def survivors(case):
     prio = {k: (-1 if case.get('weak_base') else 0) for k, _ in case['top']}
     for acts in case['stages']:
         for k, a in acts:
+            if a == 'reset':
+                # (a call holding a !force-pinned argument is kept alive by it: protected entries survive a deleting node)
+                overwritten.update(k_ for k_, spec_ in case['top'] if spec_[0] != 'pcall')
+                continue
             if a in ('touch', 'touchlist'):
                 prio[k] = 0                 # merged with a regular mapping: a regular entry from now on, its content is all still there
             elif a == 'weakscalar':
@@ -288,12 +299,17 @@ def survivors(case):
             if topkey not in overwritten:
                 out.add(spec[1])        # the shared node still exists at this place
         elif spec[0] == 'pcall':
-            if topkey not in overwritten:
+            state = 'orig'
+            for acts in case['stages']:
+                for k, a in acts:
+                    if a == 'reset':
+                        state = state if state == 'orig' else 'gone'        # the pinned argument keeps the original call alive, nothing protects a later one
+                    elif k == topkey and a not in ('touch', 'touchlist', 'weakscalar'):
+                        state = 'retargeted' if a == 'retarget' else 'gone'
+            if state == 'orig':
                 out.update([spec[1], spec[2]])
-            else:
-                last = [a for acts in case['stages'] for k, a in acts if k == topkey and a not in ('touch', 'touchlist', 'weakscalar')][-1]
-                if last == 'retarget':
-                    out.add(900 + int(topkey[2:]))
+            elif state == 'retargeted':
+                out.add(900 + int(topkey[2:]))
         elif spec[0] in ('prod', 'ccall', 'ceval'):
             if topkey not in overwritten:
                 out.add(spec[1])
